@@ -293,6 +293,25 @@ def gen_core(seed, opts=None):
     return plan
 
 
+def gen_refused_n(seed, opts=None):
+    """Normal-ending core plans in which some stream / channel requests carry an initial request-n the library may refuse
+    (0, negative) or that does not fit the 31-bit field (above MAX_REQUEST_N): whether the call is refused or served, no
+    stream may stay registered (C10)."""
+    opts = dict(opts or {})
+    plan = gen_core(seed, opts)
+    rng = random.Random(seed ^ 0x5EED)
+    hit = 0
+    for ia in plan['interactions']:
+        if ia['kind'] in ('stream', 'channel') and ia.get('api') != 'awaitable' and rng.random() < 0.6:
+            sub = ia.setdefault('sub', {})
+            sub['initial_n'] = _pick(rng, [(2, 0), (1, -1), (1, -7), (2, 2 ** 31), (2, 2 ** 31 + 2 ** 30), (2, 2 ** 32 - 1),
+                                           (1, 2 ** 31 + 5000)])
+            ia['odd_initial_n'] = True
+            hit += 1
+    plan['odd_initial_n'] = hit
+    return plan
+
+
 def gen_ids(seed, opts=None):
     """Id-space profile: reduced maximum stream id (2^k - 1, as the suite does) or the full space
     with the cursor near the top; many short interactions plus a few long-lived ones."""
